@@ -12,6 +12,7 @@ import (
 	"pgregory.net/rapid"
 
 	"verif/gen"
+	"verif/model"
 	"verif/pipeline"
 	"verif/rt"
 )
@@ -142,7 +143,7 @@ func lastLines(s string, n int) string {
 }
 
 // simpleInner registers an outer property that draws one variant and runs an inner property on it.
-func simpleInner(prop string, defInner int, tune func(o *gen.Opts, k *gen.KOpts)) {
+func simpleInner(prop string, defInner int, tune func(o *gen.Opts, k *gen.KOpts), post ...func(r *Recorder, rp *Replay)) {
 	Defs[prop] = &Def{
 		Draw: func(t *rapid.T, r *Recorder) *Replay {
 			excl := 0
@@ -159,8 +160,64 @@ func simpleInner(prop string, defInner int, tune func(o *gen.Opts, k *gen.KOpts)
 			return rp
 		},
 		Run: func(tools *pipeline.Tools, r *Recorder, rp *Replay) (string, error) {
-			return runInner(tools, r, rp, prop, nil)
+			msg, err := runInner(tools, r, rp, prop, nil)
+			if msg == "" && err == nil {
+				for _, p := range post {
+					p(r, rp)
+				}
+			}
+			return msg, err
 		},
+	}
+}
+
+// c10Nontrivial: >= 2 different flags set somewhere below the root, or a multi-line comment.
+func c10Nontrivial(r *Recorder, rp *Replay) {
+	v := rp.Variants[0]
+	flags := map[string]bool{}
+	multiline := false
+	for _, root := range v.Model.Roots {
+		root.Walk(func(m *model.Msg) {
+			if m == root {
+				return
+			}
+			for _, a := range m.Attrs {
+				if a.Required {
+					flags["required"] = true
+				}
+				if a.Computed {
+					flags["computed"] = true
+				}
+				if a.Sensitive {
+					flags["sensitive"] = true
+				}
+				if len(a.Validators) > 0 {
+					flags["validators"] = true
+				}
+				if len(a.PlanModifiers) > 0 {
+					flags["plan_modifiers"] = true
+				}
+			}
+			if len(m.Injected) > 0 {
+				flags["injected"] = true
+			}
+		})
+	}
+	for _, m := range v.File.Messages {
+		for _, f := range m.Fields {
+			if strings.Count(strings.TrimRight(f.Comment.Leading, "\r\n"), "\n") >= 1 {
+				multiline = true
+			}
+		}
+	}
+	for k := range flags {
+		r.Class("flag_below_root:" + k)
+	}
+	if multiline {
+		r.Class("multiline_comment")
+	}
+	if len(flags) >= 2 || multiline {
+		r.Nontrivial(Hash(v))
 	}
 }
 
@@ -168,7 +225,11 @@ func init() {
 	simpleInner("C02", 150, nil)
 	simpleInner("C03", 300, nil)
 	simpleInner("C04", 300, nil)
-	simpleInner("C10", 1, func(o *gen.Opts, k *gen.KOpts) { o.Comments = true; k.Rich = true })
+	simpleInner("C10", 1, func(o *gen.Opts, k *gen.KOpts) { o.Comments = true; k.Rich = true }, c10Nontrivial)
+	simpleInner("C05", 300, nil)
+	simpleInner("C07", 300, func(o *gen.Opts, k *gen.KOpts) { o.OneofHeavy = true })
+	simpleInner("C08", 300, nil)
+	simpleInner("C09", 200, nil)
 	simpleInner("C19", 500, func(o *gen.Opts, k *gen.KOpts) { o.ScalarDense = true })
 	simpleInner("C20", 300, nil)
 }
